@@ -34,6 +34,17 @@ type xl struct {
 	out     *[]Stmt
 	curBody ast.Node // body of the function or closure being translated
 	locks   []*lockFrame
+	esc     *[]escape // references to shared memory the function being translated returns
+	lastEsc []escape  // ... and those of the call translated last
+	lastAt  ast.Node
+}
+
+// escape: result number idx of a function is a slice or map that IS a field of
+// a shared object (not a copy of it): whoever holds the result can read that
+// memory after every lock taken inside the function has been released.
+type escape struct {
+	idx int
+	p   *path
 }
 
 // lockFrame: one open Lock()...Unlock() span.  after collects what runs on an
@@ -345,8 +356,19 @@ func (x *xl) stmt(s ast.Stmt) {
 		x.rd(s.Chan)
 		x.rd(s.Value)
 	case *ast.ReturnStmt:
-		for _, r := range s.Results {
+		for i, r := range s.Results {
+			x.lastEsc, x.lastAt = nil, nil
 			x.rd(r)
+			if x.esc == nil {
+				continue
+			}
+			if c, ok := ast.Unparen(r).(*ast.CallExpr); ok && len(s.Results) == 1 && x.lastAt == ast.Node(c) {
+				*x.esc = append(*x.esc, x.lastEsc...) // return f(): f's results are ours
+				continue
+			}
+			if p := x.escaping(r); p != nil {
+				*x.esc = append(*x.esc, escape{i, p})
+			}
 		}
 	case *ast.BranchStmt:
 		if s.Tok == token.GOTO || s.Label != nil {
@@ -382,9 +404,28 @@ func (x *xl) stmt(s ast.Stmt) {
 }
 
 func (x *xl) assign(s *ast.AssignStmt) {
+	x.lastEsc, x.lastAt = nil, nil
 	for _, r := range s.Rhs {
 		x.rd(r)
 	}
+	var esc []escape
+	if len(s.Rhs) == 1 {
+		if c, ok := ast.Unparen(s.Rhs[0]).(*ast.CallExpr); ok && x.lastAt == ast.Node(c) {
+			esc = x.lastEsc
+		}
+	}
+	defer func() {
+		// v := f(): v is the shared memory f handed out
+		for _, e := range esc {
+			if s.Tok == token.DEFINE && e.idx < len(s.Lhs) {
+				if id, ok := s.Lhs[e.idx].(*ast.Ident); ok && id.Name != "_" {
+					if v, ok := x.p.objOf(id).(*types.Var); ok {
+						x.env[v] = binding{path: e.p}
+					}
+				}
+			}
+		}
+	}()
 	if s.Tok != token.ASSIGN && s.Tok != token.DEFINE { // op=
 		for _, l := range s.Lhs {
 			x.rd(l)
@@ -731,6 +772,9 @@ func (x *xl) wrValue(e ast.Expr) {
 		return
 	}
 	x.access(Wr, x.loc(e), e)
+	if _, isIdx := ast.Unparen(e).(*ast.IndexExpr); isIdx {
+		x.accessElems(Wr, x.loc(e), e) // x.f[i] = v
+	}
 }
 
 // elems: access to the elements of a slice value (append, copy, range, sort).
@@ -750,6 +794,9 @@ func (x *xl) elems(k Kind, e ast.Expr, at ast.Node) {
 		}
 	}
 	x.access(k, l, at)
+	if k == Wr {
+		x.accessElems(Wr, l, at) // copy(dst, ...) overwrites dst's memory in place
+	}
 }
 
 // ---------------------------------------------------------------- calls
@@ -1123,13 +1170,79 @@ func (x *xl) inline(f *types.Func, args []ast.Expr, recvPath *path, at ast.Node)
 	}
 	x.active[f] = true
 	x.stack = append(x.stack, x.p.FuncName(f))
-	saved := x.curBody
-	x.curBody = decl.Body
+	saved, savedEsc, savedLocks := x.curBody, x.esc, x.locks
+	var esc []escape
+	x.curBody, x.esc, x.locks = decl.Body, &esc, nil
 	x.analyseFresh(decl.Type, decl.Body)
 	x.stmts(decl.Body.List)
-	x.curBody = saved
+	x.curBody, x.esc, x.locks = saved, savedEsc, savedLocks
 	x.stack = x.stack[:len(x.stack)-1]
 	delete(x.active, f)
+	// a returned reference to shared memory: the caller may read it from here
+	// on, outside every lock the callee held
+	for _, e := range esc {
+		x.accessElems(Rd, e.p, at)
+	}
+	x.lastEsc, x.lastAt = esc, at
+}
+
+// escaping: the returned expression e is a slice or map stored in a field of
+// an object that is not private to this goroutine — the field itself, a
+// reslice or a conversion of it, or a local that aliases it; NOT a copy
+// (make+copy, append([]T(nil), ...) give fresh memory).  Slices of module
+// structs are left out: their elements' fields are tracked as such.
+func (x *xl) escaping(e ast.Expr) *path {
+	t := x.p.typeOf(e)
+	if t == nil {
+		return nil
+	}
+	switch u := t.Underlying().(type) {
+	case *types.Slice:
+		if n, _ := moduleStruct(u.Elem()); n != nil {
+			return nil
+		}
+	case *types.Map:
+	default:
+		return nil
+	}
+	p := x.loc(e)
+	if p == nil || x.freshPath(p) {
+		return nil
+	}
+	steps := p.steps
+	for len(steps) > 0 && steps[len(steps)-1].kind != 'f' {
+		steps = steps[:len(steps)-1]
+	}
+	if len(steps) == 0 {
+		return nil // a plain variable: its memory is accounted for where it was obtained
+	}
+	if x.recvOf(p, steps[:len(steps)-1], false).Kind == ROwn {
+		return nil
+	}
+	return p
+}
+
+// accessElems: an access to the memory a slice/map field points to (class
+// <field>[]), as opposed to the field itself.
+func (x *xl) accessElems(k Kind, p *path, at ast.Node) {
+	if p == nil {
+		return
+	}
+	steps := p.steps
+	for len(steps) > 0 && steps[len(steps)-1].kind != 'f' {
+		steps = steps[:len(steps)-1]
+	}
+	if len(steps) == 0 {
+		return
+	}
+	f := steps[len(steps)-1]
+	switch f.typ.Underlying().(type) {
+	case *types.Slice, *types.Map:
+	default:
+		return
+	}
+	x.emit(Access{Kind: k, Cls: f.owner + "." + f.name + "[]", Recv: x.recvOf(p, steps[:len(steps)-1], false),
+		Path: append([]string{}, x.stack...), Pos: x.p.Pos(at)})
 }
 
 // ---------------------------------------------------------------- goroutines
